@@ -158,6 +158,8 @@ def build(spec, scratch=None, stop_at=None, tolerate_flagged=False):
         _SCRATCH['used_in_call'] = False
 
         def resolve(k, _i=i):
+            if isinstance(k, list):         # [logical file, op]: an object of ANOTHER logical file (must-reject cases)
+                return b.items[(k[0], k[1])]
             return b.items[(_i, k)]
 
         try:
